@@ -145,16 +145,29 @@ package hclsyntax
 // verif:func (*peeker).includingNewlines
 //@ requires len(p.IncludeNewlinesStack) >= 1
 //@ pure
+//@ ensures ret == p.IncludeNewlinesStack[len(p.IncludeNewlinesStack) - 1]
 
+// What the peeker skips (unit U11c, C14/C02): a comment when comments are not included - unless
+// newlines are significant and the comment ends a line, in which case it stands for that newline - and
+// a newline when newlines are not significant. nextToken returns the first token at or after
+// NextIndex that is not skipped (or the last token when everything is skipped), and the index after it.
+// verif:pred inclNL(p *peeker) = p.IncludeNewlinesStack[len(p.IncludeNewlinesStack) - 1]
+// verif:pred fakeNL(p *peeker, j int) = p.Tokens[j].Type == TokenComment && !p.IncludeComments && inclNL(p) && len(p.Tokens[j].Bytes) > 0 && p.Tokens[j].Bytes[len(p.Tokens[j].Bytes) - 1] == 10
+// verif:pred skipped(p *peeker, j int) = (p.Tokens[j].Type == TokenComment && !p.IncludeComments && !fakeNL(p, j)) || (p.Tokens[j].Type == TokenNewline && !inclNL(p))
+// verif:pred stopsAt(p *peeker, i int) = p.NextIndex <= i && i < len(p.Tokens) && !skipped(p, i) && (forall j int :: { p.Tokens[j] } p.NextIndex <= j && j < i ==> skipped(p, j))
+// verif:pred allSkipped(p *peeker) = forall j int :: { p.Tokens[j] } p.NextIndex <= j && j < len(p.Tokens) ==> skipped(p, j)
 // verif:func (*peeker).nextToken
 //@ nosafety
-//@ requires len(p.IncludeNewlinesStack) >= 1
+//@ requires len(p.IncludeNewlinesStack) >= 1 && p.NextIndex >= 0
 //@ pure
+//@ ensures found: stopsAt(p, ret1 - 1) && ret0.Range == p.Tokens[ret1 - 1].Range && (fakeNL(p, ret1 - 1) ==> ret0.Type == TokenNewline) && (!fakeNL(p, ret1 - 1) ==> ret0 == p.Tokens[ret1 - 1]) || allSkipped(p) && ret1 == len(p.Tokens) && (len(p.Tokens) >= 1 ==> ret0 == p.Tokens[len(p.Tokens) - 1])
+//@ loop 1 invariant p.NextIndex <= i && (forall j int :: { p.Tokens[j] } p.NextIndex <= j && j < i ==> skipped(p, j))
 
 // verif:func (*peeker).Peek
 //@ nosafety
-//@ requires len(p.IncludeNewlinesStack) >= 1
+//@ requires len(p.IncludeNewlinesStack) >= 1 && p.NextIndex >= 0
 //@ pure
+//@ ensures found: (exists i int :: { p.Tokens[i] } stopsAt(p, i) && ret.Range == p.Tokens[i].Range && (fakeNL(p, i) ==> ret.Type == TokenNewline) && (!fakeNL(p, i) ==> ret == p.Tokens[i])) || allSkipped(p) && (len(p.Tokens) >= 1 ==> ret == p.Tokens[len(p.Tokens) - 1])
 
 // verif:func (*peeker).Read
 //@ nosafety
@@ -162,10 +175,13 @@ package hclsyntax
 //@ assigns p
 //@ ensures len(p.IncludeNewlinesStack) == old(len(p.IncludeNewlinesStack))
 
+// The range of the next token is the range of the token Peek returns: skipped comments and
+// newlines never lend their range to the construct that follows them.
 // verif:func (*peeker).NextRange
 //@ nosafety
-//@ requires len(p.IncludeNewlinesStack) >= 1
+//@ requires len(p.IncludeNewlinesStack) >= 1 && p.NextIndex >= 0
 //@ pure
+//@ ensures found: (exists i int :: { p.Tokens[i] } stopsAt(p, i) && ret == p.Tokens[i].Range) || allSkipped(p) && (len(p.Tokens) >= 1 ==> ret == p.Tokens[len(p.Tokens) - 1].Range)
 
 // verif:func (*peeker).PrevRange
 //@ nosafety
